@@ -42,6 +42,7 @@ type UFDecl struct {
 }
 
 type Loader struct {
+	implCache   map[string]types.Type
 	fset        *token.FileSet
 	pkgs        []*packages.Package
 	prog        *ssa.Program
@@ -533,3 +534,31 @@ func (L *Loader) render(n ast.Node) string {
 }
 
 var _ = path.Base
+
+// soleImplementation: the concrete type declared (implements directive) as the only implementation of
+// the interface type T, or nil.
+func (L *Loader) soleImplementation(T types.Type) types.Type {
+	if len(L.specs.Implements) == 0 {
+		return nil
+	}
+	if L.implCache == nil {
+		L.implCache = map[string]types.Type{}
+	}
+	key := T.String()
+	if c, ok := L.implCache[key]; ok {
+		return c
+	}
+	var res types.Type
+	for it, ct := range L.specs.Implements {
+		IT, err := L.resolveType(nil, it)
+		if err != nil || !types.Identical(IT, T) {
+			continue
+		}
+		CT, err := L.resolveType(nil, ct)
+		if err == nil {
+			res = CT
+		}
+	}
+	L.implCache[key] = res
+	return res
+}
